@@ -87,7 +87,14 @@ impl ResponseOutputFormat {
                 };
 
                 if !errors.is_empty() {
-                    response["error"] = json![{"csv": json![errors]}];
+                    // the response may already carry an error (the search error of a failed
+                    // query, whose summary columns cannot be filled) or the messages of
+                    // another CSV file: never replace a field that is already there
+                    let mut key = String::from("error");
+                    while response.get(&key).is_some() {
+                        key = format!("csv_{}", key);
+                    }
+                    response[key] = json![{"csv": json![errors]}];
                 }
                 Ok(row)
             }
